@@ -44,6 +44,8 @@ type Rule struct {
 
 // Ctx collects the obligations of one property run.
 type Ctx struct {
+	// Frozen: StartRule is a no-op (obligations of an embedded property run land in the current rule).
+	Frozen bool
 	Prop    string
 	P       *Prog
 	Obls    []Obligation
@@ -67,6 +69,10 @@ func NewCtx(prop string, p *Prog) *Ctx {
 // StartRule opens a rule instance; min is the number of obligations confirmed
 // by hand on the pinned tree below which the rule is considered vacuous.
 func (c *Ctx) StartRule(id, text string, min int) {
+	if c.Frozen {
+		// the rules of another property are being run as one shared rule of this one
+		return
+	}
 	c.rule = &Rule{ID: c.Prop + "." + id, Text: text, Min: min}
 	c.Rules = append(c.Rules, c.rule)
 }
